@@ -14,8 +14,9 @@ import vlib
 from props import calsim, c15
 
 THEOREMS = ['Libvna.Cal.solve_unique', 'Libvna.Cal.failed_solve_frame', 'Libvna.Cal.too_few_no_unique'] + ['Libvna.UF.' + t for t in (
-    'rt_compress', 'rt_link', 'union_st', 'build_st', 'conn_iff', 'conn_refl', 'conn_symm', 'conn_trans', 'conn_cell', 'conn_isolated')]
-FILES = ['Props/C01.lean', 'Props/C20.lean', 'Model/Connect.lean', 'Props/C20Conn.lean']
+    'rt_compress', 'rt_link', 'union_st', 'build_st', 'conn_iff', 'conn_refl', 'conn_symm', 'conn_trans', 'conn_cell', 'conn_isolated')] + [
+    'Libvna.Order.ls_unique', 'Libvna.Order.order_independent']
+FILES = ['Props/C01.lean', 'Props/C20.lean', 'Model/Connect.lean', 'Props/C20Conn.lean', 'Props/C17Order.lean']
 
 DOF = {  # independent error terms (vnacal_new(3) table: terms - free) for a square p-port calibration
     'T8': lambda p: 4 * p - 1, 'U8': lambda p: 4 * p - 1, 'TE10': lambda p: p * p + 3 * p - 1, 'UE10': lambda p: p * p + 3 * p - 1,
@@ -166,7 +167,7 @@ def lin16_rank(sc, descs):
 def run(chk):
     rng = random.Random(chk.seed * 47 + 20)
     broken = []
-    c15.proof_side(chk, ['Libvna.Props.C20', 'Libvna.Props.C20Conn'], THEOREMS, FILES, broken)
+    c15.proof_side(chk, ['Libvna.Props.C20', 'Libvna.Props.C20Conn', 'Libvna.Props.C17Order'], THEOREMS, FILES, broken)
     chk.trusted += ['tools/props/calsim.py ground truth and Jacobian-rank identifiability test',
                     'Model/Connect.lean hand model of find / build_connectivity_matrix, tied matrix by matrix through the guarded hook _vnacal_new_verif_connectivity_dump']
     chk.checker_cmd = 'cd lean && lake build Libvna.Props.C20 Libvna.Props.C20Conn && #print axioms'
